@@ -49,3 +49,44 @@ func (v *VerifCluster) Stored(name, key string) (val []byte, ttl int64, ok bool)
 func (v *VerifCluster) KeyForPartition(name string, part uint64, skip int) string {
 	return vpKeyForPartition(name, part, v.cl.parts, skip)
 }
+
+// VerifNewClusterR: as VerifNewCluster with a replica count; with prev, every partition also lists the other member
+// as a previous primary owner (hand-over in progress); with replicas == 2 the other member is the backup owner.
+func VerifNewClusterR(parts uint64, replicas int, prev bool) *VerifCluster {
+	cl := vpNewCluster(vpClusterConfig{members: 2, replicaCount: replicas, writeQuorum: 1, readQuorum: 1, partitions: parts})
+	for p := uint64(0); p < parts; p++ {
+		owner := int(p) % 2
+		other := 1 - owner
+		po := []int{owner}
+		if prev {
+			po = []int{other, owner}
+		}
+		var bo []int
+		if replicas == 2 {
+			bo = []int{other}
+		}
+		cl.vpSetOwners(p, po, bo)
+	}
+	return &VerifCluster{cl: cl}
+}
+
+// PlacePrimary writes a key straight into member i's primary fragment (data a previous owner still holds).
+func (v *VerifCluster) PlacePrimary(i int, name, key string, val []byte) {
+	vpPlace(v.cl.members[i], name, key, val, 0, 1, partitions.PRIMARY)
+}
+
+func (v *VerifCluster) PrimaryOwners(p uint64) []string {
+	var out []string
+	for _, m := range v.cl.members[0].svc.primary.PartitionByID(p).Owners() {
+		out = append(out, m.Name)
+	}
+	return out
+}
+
+func (v *VerifCluster) BackupOwners(p uint64) []string {
+	var out []string
+	for _, m := range v.cl.members[0].svc.backup.PartitionByID(p).Owners() {
+		out = append(out, m.Name)
+	}
+	return out
+}
